@@ -12,6 +12,9 @@ from pathlib import Path
 
 VERIF = Path(__file__).resolve().parent.parent
 REPO = Path(os.environ.get("VERIF_REPO", "/repo"))
+# evidence and replay files of /verif describe runs against /repo itself; runs pointed at another tree (VERIF_REPO: the evaluation of
+# seeded / neutral / mechanical changes on scratch worktrees) write theirs next to that tree's name under the system temp directory
+OUT_ROOT = Path(__file__).resolve().parent.parent if str(REPO) == "/repo" else Path("/tmp") / "verif-eval" / REPO.name
 EVIDENCE_SCHEMA = Path("/root/.vp/EVIDENCE.schema.json")
 GUARD = "BLACK_IT_VERIF"
 
@@ -122,8 +125,8 @@ class Check:
                 if v["key"] in seen:
                     continue
                 seen.add(v["key"])
-                path = VERIF / "replays" / f"{self.pid}-{_slug(v['key'])}.json"
-                path.parent.mkdir(exist_ok=True)
+                path = OUT_ROOT / "replays" / f"{self.pid}-{_slug(v['key'])}.json"
+                path.parent.mkdir(parents=True, exist_ok=True)
                 rep = {"property": self.pid, "key": v["key"], "what": v["what"], "tier": self.tier,
                        "seed": self.seed, **v["replay"]}
                 path.write_text(json.dumps(rep, indent=1, default=_jd))
@@ -183,6 +186,6 @@ def _write_evidence(pid: str, ev: dict) -> None:
     schema = json.loads(EVIDENCE_SCHEMA.read_text()) if EVIDENCE_SCHEMA.exists() else None
     if schema is not None:
         jsonschema.validate(ev, schema)
-    out = VERIF / "evidence" / f"{pid}.json"
-    out.parent.mkdir(exist_ok=True)
+    out = OUT_ROOT / "evidence" / f"{pid}.json"
+    out.parent.mkdir(parents=True, exist_ok=True)
     out.write_text(json.dumps(ev, indent=1))
